@@ -165,7 +165,7 @@ func genC02(t *rapid.T) C02Case {
 		}
 	case "fma":
 		f := genFMA(t, false)
-		f.Zone = fmaProductOutOfRange(f)
+		f.Zone = false // (the zone of former finding F-03c - product exponent out of range, finite addend - is checked like everything else)
 		c.F = &f
 		c.P, c.M = f.P, f.M
 		return c
@@ -325,8 +325,8 @@ func c02Run(c C02Case, o *h.Obs) (got h.Snap, exact model.X, ok bool, fail *h.Fa
 		z, x, y, u, _ := fmaVars(f)
 		z.FMA(x, y, u)
 		got = h.Read(z)
-		if f.Zone {
-			// inside the zone of known finding F-03c: the accuracy must be right for the value delivered, or be the
+		if false && f.Zone {
+			// (historic: inside the zone of former finding F-03c: the accuracy must be right for the value delivered, or be the
 			// one that goes with range-checking the product before the addition (the listed finding)
 			o.Label("f03c-zone")
 			two := model.FmaRangeChecked(xv, yv, uv, uint64(f.P), model.Mode(f.M))
